@@ -84,6 +84,14 @@ Fixpoint reach (S : schema) (fuel : nat) (seen : list name) : list name :=
 Definition reachable (S : schema) : list name :=
   reach S (List.length (types S)) (add_new [] (inspect_roots S)).
 
+(** the declarative reading of "schema.New reaches n" (schema/inspect.go): the least set of names
+    that contains the roots and is closed under following the references of a registered type.
+    [FeaturesReach.reachable_iff] proves that [reachable] computes exactly this set (the fuel
+    [length (types S)] suffices) for every schema that schema.New accepts. *)
+Inductive reaches (S : schema) : name -> Prop :=
+| reaches_root n : In n (inspect_roots S) -> reaches S n
+| reaches_ref h t r : reaches S h -> lookup S h = Some t -> In r (type_refs t) -> reaches S r.
+
 Definition restrict (S : schema) (keep : list name) : schema :=
   {| types := filter (fun nt => mem (fst nt) keep) (types S);
      query := query S; mutation := mutation S; subscription := subscription S;
